@@ -16,7 +16,8 @@ import math
 import re
 
 _FLOAT = re.compile(r'([+-]?)(?:([0-9]+)(?:(\.)([0-9]*))?|\.([0-9]+))(?:([eE])([+-]?)([0-9]+))?')
-_WS = ' \t\n\r\f\v'
+# ASCII white space plus NBSP, figure space, thin space, narrow NBSP (escapes, the source stays ASCII): around a number = padding (UNSPECIFIED)
+_WS = ' \t\n\r\f\v\u00a0\u2007\u2009\u202f'
 DIGITS = '0123456789abcdefghijklmnopqrstuvwxyz'
 
 OVERFLOW = ('OVERFLOW',)
